@@ -1192,6 +1192,22 @@ def _snapshot_still_valid(fn, var, init, bid):
                 # the write must not be the definition itself / precede it in the same block
                 if e['_b'] == db and any(x['k'] == 'decl' and x['n'] == var and x['_i'] > e['_i'] for x in fn.blocks[db]['ev']):
                     continue
+                # ... and must be able to reach the branch without running the definition again (a loop body defines the
+                # local afresh in every iteration)
+                if e['_b'] != db and e['_b'] != bid:
+                    seen_, st_ = set(), [x for x in fn.succ(e['_b'])]
+                    hit_ = False
+                    while st_:
+                        b2 = st_.pop()
+                        if b2 in seen_ or b2 == db:
+                            continue
+                        seen_.add(b2)
+                        if b2 == bid:
+                            hit_ = True
+                            break
+                        st_ += fn.succ(b2)
+                    if not hit_:
+                        continue
                 ok = False
                 break
     cache[key] = ok
